@@ -40,6 +40,7 @@ class TLCResult:
     printed: list = field(default_factory=list)  # decoded PrintT values (JSON objects or tuples)
     coverage: dict = field(default_factory=dict)  # action/operator name -> count
     cex: str = ""  # error trace text if any
+    init_states: int = 0  # "Finished computing initial states: N distinct states generated"
 
     @property
     def ok(self) -> bool:
@@ -101,6 +102,10 @@ def parse_output(text: str, res: TLCResult) -> None:
         m = _DEPTH.search(s)
         if m:
             res.depth = int(m.group(1))
+            continue
+        m = re.search(r"Finished computing initial states: (\d+) distinct state", s)
+        if m:
+            res.init_states = int(m.group(1))
             continue
         if s.startswith("Error:"):
             res.errors.append(s)
